@@ -30,16 +30,15 @@ from fractions import Fraction as F
 CLAIM_ADDENDUM = dict(
     text="Tree clause beyond one edge (coq/Props/C08t.v, closed under the global context): the master equation of the Markovian SIR process as an executable "
          "function of any graph and any direction-dependent transmission / node-dependent recovery rate functions (coq/Model/Master.v, extracted and compared "
-         "with a numpy master equation on every run); (1) pure and product-form initial conditions lie in the algebraic set M (2x2 minors of the slice "
-         "'j susceptible' vanish: conditional independence across a cut vertex), every n; (2) for EVERY graph and every cut vertex the master-equation vector "
-         "field is tangent to M: the derivative of each minor is an explicit p-independent linear combination of minors (C08t_tangent_eq, C08t_tangent); "
-         "(3b,c) for every graph whose paths are separated by cuts (every tree), on M and p>=0 the pair-based right-hand side at the marginals equals the exact "
-         "unclosed moment system (C08t_closed_eq_open_on_M; closure residual = sum of minors, C08t_residual_eq); (3a) unclosed moment system = marginals of "
-         "the master equation for every p on the edge, the path with 3 nodes, the path with 4 nodes and the 3-star; assembled over the right-hand side "
-         "REGENERATED from EoN/analytic.py: C08t_path3_pure_ic_partial, C08t_path4_pure_ic_partial, C08t_star3_pure_ic_partial.",
-    note="Cited: the ODE lift (linear uniqueness for the minors, nonnegativity of the master solution, Picard-Lindeloef for the pair-based system). Not proved: "
-         "(3a) on trees with >= 5 nodes (evaluated exactly by the extracted definitions on random trees <= 5 nodes, curves compared on all trees <= 5/6 nodes).")
-from . import common as C
+         "with a numpy master equation on every run).  For EVERY graph accepted by the executable check tree_okb (every tree; evaluated on all trees up to "
+         "7/8 nodes on every run; graphs with a cycle are rejected), C08t_tree_pure_ic_partial: (1) every pure initial condition lies in the algebraic set M "
+         "(2x2 minors of each slice 'j susceptible' across each branch cut vanish = conditional independence across a susceptible cut vertex); (2) the "
+         "master-equation vector field is tangent to M -- the derivative of every minor is an explicit p-independent linear combination of minors "
+         "(C08t_tangent_eq, any graph, any cut vertex); (3) on M and p>=0 the pair-based right-hand side REGENERATED from EoN/analytic.py, evaluated at the "
+         "marginals of p, equals the marginals of the master equation (C08t_open_general: unclosed moment equations for every loop-free graph; "
+         "C08t_residual_eq: closure residual = sum of minors; C08t_closed_eq_open_on_M).  The trees with 3 and 4 nodes are proved a second time by evaluation.",
+    note="Cited: the ODE lift from these identities to the returned curves (linear uniqueness for the minors, nonnegativity of the master solution, "
+         "Picard-Lindeloef for the pair-based system).  Not proved as a statement about all trees: that tree_okb accepts every tree.")
 
 COMP = 'master'
 S_, I_, R_ = 0, 1, 2
@@ -325,7 +324,34 @@ def part(run, EoN, tier, props, report, cases_registry=None):
             if v[1][0] != v[1][1]: ident_bad.append(('closure residual = sum of minors', name, adj, j, U, i, k))
             if v[1][2] != 1: ident_bad.append(('sepb rejects the branch cut of a tree', name, adj, j, U))
     info.update({'tie_evaluations': n_eval, 'cut_evaluations': n_cut, 'minor_pairs_checked_exactly': n_pairs,
-                 'trees': sorted({d[0] for _, _, d in jobs}), 'tie_mismatches': len(tie_bad), 'identity_failures': len(ident_bad)})
+                 'trees': sorted({d[0] for _, _, d in jobs})})
+    # ---- 1b. the acceptance check of C08t_tree_pure_ic_partial on every tree up to the bound, and on graphs with a cycle
+    from . import ode_oracles as O
+    import networkx as nx
+    tl = []; want = []
+    for T in O.all_trees(8 if thorough else 7):
+        nodes = list(T.nodes()); rng.shuffle(nodes); pos = {u: i for i, u in enumerate(nodes)}
+        adj = [[] for _ in nodes]
+        for u in nodes:
+            nb = [pos[v] for v in T.neighbors(u)]; rng.shuffle(nb); adj[pos[u]] = nb
+        tl.append('TREE ' + prefix(adj, {}, [F(1)] * len(adj), [F(1)])); want.append(('tree', adj, True))
+    for n_ in (3, 4, 5, 6):
+        for extra in range(2):
+            adj = rand_tree(rng, n_)
+            non = [(a, b) for a in range(n_) for b in range(a + 1, n_) if b not in adj[a]]
+            if not non: adj = [[1, 2], [0, 2], [0, 1]]
+            else:
+                a, b = rng.choice(non); adj[a].append(b); adj[b].append(a)
+            tl.append('TREE ' + prefix(adj, {}, [F(1)] * len(adj), [F(1)])); want.append(('one cycle', adj, False))
+    touts = C.run_model(tl, COMP, timeout=150, shards=8)
+    acc = rej = 0
+    for (kind, adj, exp), o in zip(want, touts):
+        got = o.split()[1] == '1' if o.startswith('OK') else None
+        if got is not exp:
+            ident_bad.append(('tree_okb (acceptance check of C08t_tree_pure_ic_partial) answers %r on a %s' % (o[:40], kind), adj))
+        elif exp: acc += 1
+        else: rej += 1
+    info.update({'tree_okb_accepts_every_tree_up_to': 8 if thorough else 7, 'trees_accepted': acc, 'graphs_with_a_cycle_rejected': rej})
     # ---- 2. failing-input search at points of M ---------------------------------------------------
     found = 0; n_pts = 0; worst = 0.0
     pts = []
@@ -363,7 +389,7 @@ def part(run, EoN, tier, props, report, cases_registry=None):
                             'SIR_pair_based_pure_IC: %s; right-hand side: %s' % (confirmed, res), {'kind': 'tree', 'params': ec, 'detail': confirmed, 'rhs_level': q})
         else:
             tie_bad.append(('_dSIR_pair_based_ is not the marginal of the master equation at a point of M', res, q))
-    info.update({'points_of_M': n_pts, 'failing_inputs': found})
+    info.update({'points_of_M': n_pts, 'failing_inputs': found, 'tie_mismatches': len(tie_bad), 'identity_failures': len(ident_bad)})
     # ---- 3. what broke without a public failing input ---------------------------------------------
     if ident_bad:
         report(run, 'C08/c08t/identity', 'an identity of Props/C08t.v fails when evaluated by the extracted definitions: %r (%d failures)' % (ident_bad[0], len(ident_bad)),
